@@ -173,6 +173,14 @@ def handle : Toks → Option String
     let (n, ts) ← pNat ts
     guard (1 ≤ rank ∧ rank ≤ 5 ∧ (ty = "i64" ∨ ty = "i32") ∧ 1 ≤ k ∧ k ≤ 4)
     histGo rank n 0 ts (initSt rank k) "ok"
+  | "range" :: ts => do
+    -- range.h: `make_range(b, e)`, then `begin() end() size() valid(n)`
+    let (b, ts) ← pInt ts
+    let (e, ts) ← pInt ts
+    let (n, ts) ← pInt ts
+    guard ts.isEmpty
+    let r := makeRange b e
+    pure s!"ok {r.b} {r.e} {r.size} {if r.valid n then 1 else 0}"
   | "arange" :: ts => do
     let (lo, ts) ← pInt ts
     let (hi, ts) ← pInt ts
